@@ -43,6 +43,20 @@ Proof.
   rewrite (bstr_eqb_sym name (ct_name x)). destruct (bstr_eqb (ct_name x) name); [intro H; inversion H; reflexivity|exact IH].
 Qed.
 
+(* a table of JavaScript functions for the program: under the name of each template, its function generated from some counter *)
+Definition c04_table_ok (p : list ctmpl) (jp : list (bstr * (bool * jblk))) : Prop :=
+  forall name t, c04_find p name = Some t -> exists n, assoc_s name jp = Some (ct_allopt t, c04_jbody t n).
+Lemma c04_jprog_ok p cnt : c04_table_ok p (c04_jprog p cnt).
+Proof. intros name t Ef. eexists. apply c04_find_jprog. exact Ef. Qed.
+Lemma c04_jprog_chain_ok p : forall n, c04_table_ok p (c04_jprog_chain p n).
+Proof.
+  induction p as [|x r IH]; intros n name t Ef; cbn [c04_find] in Ef; [discriminate|].
+  unfold c04_jprog_chain. cbn [c04_chain map fst snd]. unfold assoc_s; fold (@assoc_s (bool * jblk)).
+  rewrite (bstr_eqb_sym name (ct_name x)). destruct (bstr_eqb (ct_name x) name).
+  - inversion Ef; subst. eexists. reflexivity.
+  - exact (IH _ name t Ef).
+Qed.
+
 (* ---- the scope a template body starts in ---- *)
 Lemma sc_enter_lookup cd k : cd <> [] -> sc_lookup (sc_enter cd) k = sc_lookup cd k.
 Proof. destruct cd as [|f r]; [congruence|]. intros _. reflexivity. Qed.
@@ -162,22 +176,25 @@ Proof.
   - intros x i H. rewrite D3 in H; [discriminate|]. rewrite is_ident_app. replace (is_ident jk_index) with false by reflexivity. apply andb_false_r.
 Qed.
 
-Variable cnt : bstr -> N.
-
-(* (JS) the function of a template returns what the subset semantics says, at every call depth *)
-Theorem js_call_correct : forall k, js_callee_ok (c_ij cf) (c04_tout (c_ij cf) go_print_text p k) (c04_jcall (c04_jprog p cnt) k).
+(* (JS) the function of a template returns what the subset semantics says, at every call depth, for every table of the
+   program's functions (whatever counters they were generated from) *)
+Theorem js_call_correct_tbl jp : c04_table_ok p jp ->
+  forall k, js_callee_ok (c_ij cf) (c04_tout (c_ij cf) go_print_text p k) (c04_jcall jp k).
 Proof.
-  induction k as [|k IH]; intros name cenv text jd ijv E DR Hi; [discriminate|].
+  intro Htbl. induction k as [|k IH]; intros name cenv text jd ijv E DR Hi; [discriminate|].
   cbn [c04_tout] in E. destruct (c04_find p name) as [t|] eqn:Ef; [|discriminate].
-  cbn [c04_jcall]. rewrite (c04_find_jprog p cnt name t Ef).
+  destruct (Htbl name t Ef) as (nt & Etb).
+  cbn [c04_jcall]. rewrite Etb.
   destruct (datarel_obj cenv jd DR) as (m & ->).
   replace (if ct_allopt t then if js_truthy (JObj m) then JObj m else JObj [] else JObj m) with (JObj m) by (destruct (ct_allopt t); reflexivity).
   set (je0 := {| je_vars := [(t_opt_ij, ijv); (t_output, JStr [])]; je_data := JObj m |}).
-  unfold c04_jbody. destruct (bgen (ct_mode t) t_output c04_body_scope (cnt (ct_name t)) (ct_body t)) as [jb n'] eqn:Eg. cbn [fst].
-  destruct (proj1 (proj2 (js_exec_all (c_ij cf) (ct_mode t) cenv _ _ IH)) (ct_body t) t_output c04_body_scope (cnt (ct_name t)) cenv je0 [] text jb n'
+  unfold c04_jbody. destruct (bgen (ct_mode t) t_output c04_body_scope nt (ct_body t)) as [jb n'] eqn:Eg. cbn [fst].
+  destruct (proj1 (proj2 (js_exec_all (c_ij cf) (ct_mode t) cenv _ _ IH)) (ct_body t) t_output c04_body_scope nt cenv je0 [] text jb n'
               (c04_ginv_init _) E (conj (c04_env_rel_init cenv (JObj m) ijv DR Hi) eq_refl) DR Eg) as (je' & X & Hb' & F).
   rewrite X. cbn [bind]. rewrite Hb'. reflexivity.
 Qed.
+Theorem js_call_correct cnt : forall k, js_callee_ok (c_ij cf) (c04_tout (c_ij cf) go_print_text p k) (c04_jcall (c04_jprog p cnt) k).
+Proof. apply js_call_correct_tbl. apply c04_jprog_ok. Qed.
 End Prog.
 
 (* ---- the generator: visitTemplate ---- *)
@@ -247,6 +264,37 @@ Proof.
     gbind x13 Hx13. eapply gres_mod_auto; exact Hx12.
     eapply (gres_pop x13 _ _ _ [] sc); exact Hx13.
   - unfold c04_tprint, sp_ind. destruct (c04_allopt (j_cur st)); repeat rewrite <- app_assoc; cbn [app]; rewrite ?app_nil_r; reflexivity.
+Qed.
+
+(* the templates of a file, one after the other: walking the soydoc and template nodes in order emits the function of each
+   template from the counter the chain gives it -- the function table c04_jprog_chain -- and ends at the chain's last counter *)
+Definition c04_file_chunks (p : list ctmpl) (n : N) : list chunk :=
+  flat_map (fun tn => c04_tprint (template_header_line o (ct_name (fst tn))) (ct_allopt (fst tn)) (c04_jbody (fst tn) (snd tn))) (c04_chain p n).
+Theorem gen_templates nsae F : forall p n st bf,
+  (forall t, In t p -> ct_ns_ae t = nsae /\ (S (S (bdepth (ct_body t))) < F)%nat /\ bwf [] (ct_body t) = true) ->
+  shape st 0 bf nsae [[]] n ->
+  exists bf' n', gres (jwalk_list (jwalk o F) (flat_map c04_doc_nodes p)) st (c04_file_chunks p n) 0 bf' nsae [[]] n'.
+Proof.
+  induction p as [|t r IH]; intros n st bf Hall Hs.
+  - exists bf, n. cbn [flat_map jwalk_list c04_file_chunks c04_chain]. apply gres_ret; exact Hs.
+  - destruct (Hall t (or_introl eq_refl)) as (Hns & Hd & Hwf). subst nsae.
+    destruct F as [|F1]; [lia|].
+    cbn [flat_map c04_doc_nodes app jwalk_list]. unfold c04_file_chunks. cbn [c04_chain flat_map fst snd]. fold (c04_file_chunks r (snd (bgen (ct_mode t) t_output c04_body_scope n (ct_body t)))).
+    (* the soydoc node: s.node remembers its parameters *)
+    set (flags := soydoc_flags (NSoyDoc 0 (if ct_allopt t then [NSoyDocParam 0 [] true] else []))).
+    set (st1 := jset_cur flags st).
+    assert (E1 : jwalk o (S F1) (NSoyDoc 0 (if ct_allopt t then [NSoyDocParam 0 [] true] else [])) st = Ok (tt, st1)) by (rewrite jwalk_S; reflexivity).
+    assert (H1 : shape st1 0 bf (ct_ns_ae t) [[]] n) by (subst st1; destruct st; exact Hs).
+    assert (O1 : j_out st1 = j_out st) by (subst st1; destruct st; reflexivity).
+    assert (Hao : c04_allopt (j_cur st1) = ct_allopt t).
+    { subst st1 flags. destruct st. unfold jset_cur. cbn. destruct (ct_allopt t); reflexivity. }
+    destruct (bgen (ct_mode t) t_output c04_body_scope n (ct_body t)) as [jb n1] eqn:Eg.
+    pose proof (gen_template t [] (S F1) st1 jb n1 bf [[]] n ltac:(lia) Hwf ltac:(intros x Hx; discriminate Hx) H1 Eg) as G2. rewrite Hao in G2.
+    change (NTemplate 0 (ct_name t) (NList 0 (bnodes (ct_body t))) (ct_ae t) false) with (t_node (c04_template t)).
+    destruct G2 as (st2 & E2 & O2 & H2).
+    destruct (IH n1 st2 t_output (fun t' Ht' => Hall t' (or_intror Ht')) H2) as (bf' & n' & (st3 & E3 & O3 & H3)).
+    exists bf', n', st3. rewrite (jbind_ok _ _ _ _ _ E1), (jbind_ok _ _ _ _ _ E2). split; [exact E3|]. split; [|exact H3].
+    cbn [snd]. unfold c04_jbody at 1. rewrite Eg. cbn [fst]. rewrite O3, O2, O1, rev_app_distr, app_assoc. reflexivity.
 Qed.
 End TemplateChunks.
 
